@@ -168,8 +168,11 @@ pub async fn wait_for_jobs_with_progress(
                 ToClientMessage::Event(event) => match &event.payload {
                     EventPayload::JobCompleted(_) => completed_jobs += 1,
                     EventPayload::TaskStarted { task_id, .. } => {
-                        counters.n_running_tasks += 1;
-                        running_tasks.insert(*task_id);
+                        // A task that was running on a lost worker is started again
+                        // without any task event in between
+                        if running_tasks.insert(*task_id) {
+                            counters.n_running_tasks += 1;
+                        }
                     }
                     EventPayload::TaskFinished { task_id } => {
                         if running_tasks.remove(task_id) {
